@@ -104,10 +104,17 @@ def run_order(ctx: Ctx) -> RuleResult:
                 key = (f.qual, norm(base))
                 returned = {x.id for r_ in f.body_nodes() if isinstance(r_, ast.Return) and r_.value is not None
                             for x in ast.walk(r_.value) if isinstance(x, ast.Name)}
-                if isinstance(owner, ast.For) and f.qual == 'lark.parsers.grammar_analysis:calculate_sets' and \
-                        all(isinstance(st_, ast.Assign) and isinstance(st_.targets[0], ast.Subscript)
-                            and norm(st_.targets[0].value) in returned for st_ in owner.body):
-                    key = (f.qual, '<loop filling FIRST/FOLLOW>')
+                if isinstance(owner, ast.For) and f.qual == 'lark.parsers.grammar_analysis:calculate_sets' and isinstance(owner.target, ast.Name):
+                    # every effect of the body is a store `<returned dict>[<loop variable>] = ...` (keyed by the element itself)
+                    stores = [x for st_ in owner.body for x in ast.walk(st_) if isinstance(x, (ast.Assign, ast.AugAssign))]
+                    others = [x for st_ in owner.body for x in ast.walk(st_)
+                              if isinstance(x, (ast.Yield, ast.YieldFrom, ast.Break, ast.Return, ast.Delete))
+                              or (isinstance(x, ast.Call) and isinstance(x.func, ast.Attribute) and x.func.attr in
+                                  ('append', 'extend', 'insert', 'appendleft', 'setdefault', 'pop', 'remove'))]
+                    if stores and not others and all(
+                            isinstance(x, ast.Assign) and len(x.targets) == 1 and isinstance(x.targets[0], ast.Subscript)
+                            and norm(x.targets[0].value) in returned and norm(x.targets[0].slice) == owner.target.id for x in stores):
+                        key = (f.qual, '<loop filling FIRST/FOLLOW>')
                 if key in EXCEPTIONS:
                     used_exc.add(key)
                     res.ob(site, 'iteration over hash-ordered %s: tabled (%s)' % (norm(base), EXCEPTIONS[key]), True)
@@ -152,8 +159,10 @@ def run_order(ctx: Ctx) -> RuleResult:
     res.require_instances(n_iter, 60, 'iterations on the Earley path')
     # ---- wiring of the ordered-set switch ------------------------------------------------------------
     init = repo.func('lark.parsers.earley:Parser.__init__')
-    body = [norm(x) for x in init.body_nodes() if isinstance(x, ast.Assign)]
-    ok = 'self.Set = OrderedSet if ordered_sets else set' in body and 'self.SymbolNode = StableSymbolNode if ordered_sets else SymbolNode' in body
+    from ..exprs import match_cond
+    osp = next((p_ for p_ in init.positional_names() if p_ == 'ordered_sets'), 'ordered_sets')
+    ok = bool(match_cond(init.body_nodes(), osp, 'OrderedSet', 'set', target_src='$me.Set')) \
+        and bool(match_cond(init.body_nodes(), osp, 'StableSymbolNode', 'SymbolNode', target_src='$me.SymbolNode'))
     res.ob('%s %s' % (init.loc(), init.qual), 'ordered_sets selects OrderedSet and StableSymbolNode', ok)
     if not ok:
         res.finding(init, init.node, 'ordered_sets no longer selects insertion-ordered sets for Earley columns and SPPF node children',
@@ -335,7 +344,17 @@ def run_prio(ctx: Ctx) -> RuleResult:
     if not ok:
         res.finding(po, po.node, 'visit_packed_node_out adds only %s: the total priority of a derivation misses a subtree' % slots,
                     construct='prio:slots')
-    ok = 'node.rule.options.priority if not node.parent.is_intermediate and node.rule.options.priority else 0' in body
+    # priority = <rule priority> if (the node is not an intermediate one and the rule has a priority) else 0  -- in any spelling
+    from ..exprs import cond_values, bool_relation, pat as _pat, unify as _unify
+    nparam = po.positional_names()[0] if po.positional_names() else 'node'
+    want_t = _pat('not %s.parent.is_intermediate and %s.rule.options.priority' % (nparam, nparam))
+    ok = False
+    for tgt, test, va, vb, _n in cond_values(po.body_nodes()):
+        rel = bool_relation(test, want_t)
+        if rel == 'negated':
+            va, vb = vb, va
+        if rel and norm(va) == '%s.rule.options.priority' % nparam and norm(vb) == '0':
+            ok = True
     res.ob('%s %s' % (po.loc(), po.qual), 'the rule\'s own priority is added once (on the completed node, not on intermediates)', ok)
     if not ok:
         res.finding(po, po.node, 'the rule priority is not added exactly once per applied rule', construct='prio:rule-once')
@@ -356,7 +375,14 @@ def run_prio(ctx: Ctx) -> RuleResult:
     # terminal priorities: dynamic lexers use the terminal's priority, the basic lexer neutralises it
     tn = repo.cls('lark.parsers.earley_forest:TokenNode').methods['__init__']
     body = ' '.join(norm(s) for s in tn.node.body)
-    ok = 'self.priority = term.priority if term is not None else 0' in body
+    tparam = next((p_ for p_ in tn.positional_names() if p_ == 'term'), 'term')
+    ok = False
+    for tgt, test, va, vb, _n in cond_values(tn.body_nodes()):
+        rel = bool_relation(test, _pat('%s is not None' % tparam))
+        if rel == 'negated':
+            va, vb = vb, va
+        if rel and tgt.endswith('.priority') and norm(va) == '%s.priority' % tparam and norm(vb) == '0':
+            ok = True
     res.ob('%s %s' % (tn.loc(), tn.qual), 'a token node carries its terminal\'s priority unless overridden', ok)
     if not ok:
         res.finding(tn, tn.node, 'TokenNode no longer takes the terminal priority by default', construct='prio:token-default')
